@@ -1,7 +1,200 @@
 package rules
 
-import "taskverif/an"
+import (
+	"fmt"
+	"os"
+	"os/exec"
+	"path/filepath"
+	"sort"
+	"strings"
+
+	"taskverif/an"
+)
+
+// VerifDir is set by main: where seeded/ and variants/ live.
+var VerifDir = "/verif"
+
+// runOn runs the property's rules on another tree and returns the failing
+// obligations (violated or undischarged), or an error when it cannot load.
+func runOn(prop string, opts an.LoadOpts) (bad []an.Ob, total int, err error) {
+	defer func() {
+		if r := recover(); r != nil {
+			err = fmt.Errorf("panic: %v", r)
+		}
+	}()
+	p, err := an.Load(opts)
+	if err != nil {
+		return nil, 0, err
+	}
+	c := an.NewCtx(prop, p)
+	Registry[prop](c)
+	for _, o := range c.Obs {
+		if o.Status == an.StViolated || o.Status == an.StUndischarged {
+			bad = append(bad, o)
+		}
+		if o.Status != an.StObservation {
+			total++
+		}
+	}
+	return bad, total, nil
+}
+
+// scratchCopy copies the tracked files of root into a new directory under
+// $TMPDIR (never under /repo or /verif) and applies patch to it.
+func scratchCopy(root, patch string) (string, error) {
+	dir, err := os.MkdirTemp("", "taskverif-variant-")
+	if err != nil {
+		return "", err
+	}
+	cmd := exec.Command("bash", "-c", fmt.Sprintf("cd %q && git ls-files -z | xargs -0 cp --parents -t %q && cd %q && git init -q . && git apply --whitespace=nowarn %q", root, dir, dir, patch))
+	if out, err := cmd.CombinedOutput(); err != nil {
+		os.RemoveAll(dir)
+		return "", fmt.Errorf("%v: %s", err, strings.TrimSpace(string(out)))
+	}
+	return dir, nil
+}
 
 func thorough(c *an.Ctx, prop string, seed int64, extra map[string]interface{}) {
 	extra["whole_program"] = c.P.Whole
+	if c.P.Whole {
+		extra["callgraph"] = c.P.CallGraphStats()
+	}
+	root := c.P.Root
+
+	// (2) further build configurations
+	var configs []map[string]interface{}
+	for _, goos := range []string{"linux", "darwin", "windows"} {
+		for _, tags := range []string{"", "verif"} {
+			if goos == "linux" && tags == "" {
+				continue // the main run
+			}
+			name := goos
+			if tags != "" {
+				name += "+" + tags
+			}
+			bad, total, err := runOn(prop, an.LoadOpts{Root: root, GOOS: goos, Tags: tags})
+			entry := map[string]interface{}{"config": name}
+			switch {
+			case err != nil:
+				entry["covered"] = false
+				entry["reason"] = firstLine(err.Error())
+			default:
+				entry["covered"] = true
+				entry["obligations"] = total
+				entry["failing"] = len(bad)
+				for _, o := range bad {
+					c.Obs = append(c.Obs, an.Ob{Rule: o.Rule, Construct: "[" + name + "] " + o.Construct, Pos: o.Pos, Status: o.Status, Detail: o.Detail})
+				}
+			}
+			configs = append(configs, entry)
+		}
+	}
+	extra["configurations"] = configs
+
+	// (3) self-validation of the checker on source variants of the current tree
+	type vres struct {
+		Name   string   `json:"name"`
+		Kind   string   `json:"kind"`
+		Result string   `json:"result"`
+		Rules  []string `json:"rules,omitempty"`
+	}
+	var results []vres
+	expectedMiss := map[string]bool{}
+	if data, err := os.ReadFile(filepath.Join(VerifDir, "variants", "expected_miss.txt")); err == nil {
+		for _, l := range strings.Split(string(data), "\n") {
+			l = strings.TrimSpace(l)
+			if l != "" && !strings.HasPrefix(l, "#") {
+				expectedMiss[strings.Fields(l)[0]] = true
+			}
+		}
+	}
+	var breaking, neutral []string
+	add := func(glob string, into *[]string) {
+		m, _ := filepath.Glob(glob)
+		sort.Strings(m)
+		*into = append(*into, m...)
+	}
+	add(filepath.Join(VerifDir, "seeded", prop+"-*", "patch.diff"), &breaking)
+	add(filepath.Join(VerifDir, "variants", "breaking", prop+"-*.diff"), &breaking)
+	add(filepath.Join(VerifDir, "variants", "neutral", "*.diff"), &neutral)
+	broken := 0
+	fired, silent := 0, 0
+	runVariant := func(patch, kind string) {
+		name := filepath.Base(patch)
+		if name == "patch.diff" {
+			name = filepath.Base(filepath.Dir(patch))
+		}
+		name = strings.TrimSuffix(name, ".diff")
+		dir, err := scratchCopy(root, patch)
+		if err != nil {
+			results = append(results, vres{name, kind, "skipped: does not apply to the current tree", nil})
+			return
+		}
+		defer os.RemoveAll(dir)
+		bad, _, err := runOn(prop, an.LoadOpts{Root: dir})
+		if err != nil {
+			results = append(results, vres{name, kind, "skipped: variant does not load: " + firstLine(err.Error()), nil})
+			return
+		}
+		var rules []string
+		seen := map[string]bool{}
+		for _, o := range bad {
+			if !seen[o.Rule] {
+				seen[o.Rule] = true
+				rules = append(rules, o.Rule)
+			}
+		}
+		sort.Strings(rules)
+		switch kind {
+		case "breaking":
+			if len(bad) > 0 {
+				fired++
+				results = append(results, vres{name, kind, "fired", rules})
+			} else if expectedMiss[name] {
+				results = append(results, vres{name, kind, "not detected (documented miss)", nil})
+			} else {
+				broken++
+				results = append(results, vres{name, kind, "NOT DETECTED", nil})
+			}
+		case "neutral":
+			if len(bad) == 0 {
+				silent++
+				results = append(results, vres{name, kind, "silent", nil})
+			} else {
+				broken++
+				results = append(results, vres{name, kind, "FALSE ALARM", rules})
+			}
+		}
+	}
+	for _, pch := range breaking {
+		runVariant(pch, "breaking")
+	}
+	for _, pch := range neutral {
+		runVariant(pch, "neutral")
+	}
+	extra["seeded_variants"] = map[string]interface{}{"fired": fired, "total": len(breaking)}
+	extra["neutral_variants"] = map[string]interface{}{"silent": silent, "total": len(neutral)}
+	extra["variants"] = results
+	if broken > 0 {
+		// a checker that misses its own seeded variant or alarms on a neutral one is broken: exit 2
+		for _, r := range results {
+			if r.Result == "NOT DETECTED" || r.Result == "FALSE ALARM" {
+				fmt.Printf("INFRA: checker self-validation failed for %s: %s variant %s: %s %v\n", prop, r.Kind, r.Name, r.Result, r.Rules)
+			}
+		}
+		extra["self_validation"] = "FAILED"
+		SelfValidationFailed = true
+	} else {
+		extra["self_validation"] = "passed"
+	}
+}
+
+// SelfValidationFailed makes main exit with status 2.
+var SelfValidationFailed bool
+
+func firstLine(s string) string {
+	if i := strings.Index(s, "\n"); i >= 0 {
+		return s[:i]
+	}
+	return s
 }
